@@ -138,6 +138,42 @@ impl DirNet {
         self.wire.splice(pos..pos + del, ins.iter().copied());
         self.tags.splice(pos..pos + del, ins.iter().map(|_| Tag::Junk));
     }
+
+    /// like `splice`, for inserted copies of authentic bytes: they keep their provenance
+    fn splice_tagged(&mut self, pos: usize, ins: &[u8], tags: &[Tag]) {
+        self.wire.splice(pos..pos, ins.iter().copied());
+        self.tags.splice(pos..pos, tags.iter().copied());
+    }
+
+    /// The model treats a ciphertext byte as different from every byte that is not that very ciphertext byte. On the
+    /// real wire a made-up or displaced byte equals the byte it replaces with probability 1/256, and if it is the
+    /// only byte of its frame that changed, the tampering is void. To keep runs deterministic (the ciphertext differs
+    /// from run to run), the first byte after `pos` that the model considers changed and that sits in a frame body is
+    /// forced to really differ. (Nothing behind it is ever interpreted: the reader fails at that frame for good.)
+    fn decoincide(&mut self, pos: usize, old_wire: &[u8], old_tags: &[Tag]) -> bool {
+        for i in pos..self.wire.len().min(old_wire.len()) {
+            if self.tags[i] == old_tags[i] && old_tags[i] != Tag::Junk {
+                continue;
+            }
+            match old_tags[i] {
+                Tag::Frame { idx, .. } if idx >= 2 => {
+                    if self.wire[i] == old_wire[i] {
+                        self.wire[i] ^= 1;
+                        return true;
+                    }
+                    return false;
+                }
+                Tag::Frame { .. } => {
+                    if self.wire[i] == old_wire[i] {
+                        continue;
+                    }
+                    return false;
+                }
+                Tag::Junk => return false,
+            }
+        }
+        false
+    }
 }
 
 struct Net {
@@ -476,6 +512,7 @@ impl C13 {
         let g = |k: &str| op[k].as_u64().unwrap_or(0) as usize;
         let kind = op["kind"].as_str().unwrap_or("");
         let no = json!({"applied": false, "inflight": l});
+        let (old_wire, old_tags) = (dn.wire.clone(), dn.tags.clone());
         let obs = match kind {
             "flip" => {
                 if l == 0 {
@@ -530,7 +567,8 @@ impl C13 {
                     let k = g("k") % dn.hist.len();
                     let pos = b[g("g") % b.len()];
                     let f = dn.hist[k].clone();
-                    dn.splice(pos, 0, &f);
+                    let ft: Vec<Tag> = (0..f.len()).map(|idx| Tag::Frame { k, idx }).collect();
+                    dn.splice_tagged(pos, &f, &ft);
                     json!({"applied": true, "inflight": l, "pos": pos, "k": k, "len": f.len()})
                 }
             }
@@ -568,11 +606,14 @@ impl C13 {
             },
             "dupr" => match (l > 0).then(|| dn.body_pos_from(g("at") % l.max(1))).flatten() {
                 None => no,
+                // a copy inserted in front of itself can leave the frame intact and displaced bytes behind it
+                Some(pos) if g("from") % l == pos => no,
                 Some(pos) => {
                     let a = g("from") % l;
                     let n = g("len").clamp(1, l - a);
                     let seg: Vec<u8> = dn.wire[a..a + n].to_vec();
-                    dn.splice(pos, 0, &seg);
+                    let segt: Vec<Tag> = dn.tags[a..a + n].to_vec();
+                    dn.splice_tagged(pos, &seg, &segt);
                     json!({"applied": true, "inflight": l, "pos": pos, "from": a, "len": n})
                 }
             },
@@ -580,6 +621,11 @@ impl C13 {
         };
         out.count(&format!("tamper:{kind}:{}", obs["applied"].as_bool().unwrap_or(false)));
         let mut obs = obs;
+        if let Some(pos) = obs["pos"].as_u64() {
+            if kind != "trunc" && dn.decoincide(pos as usize, &old_wire, &old_tags) {
+                out.count("tamper:decoincided");
+            }
+        }
         if let Some(o) = obs.as_object_mut() {
             o.insert("after".into(), json!(dn.wire.len()));
         }
